@@ -201,7 +201,7 @@ def _pairs(args):
 
 
 def run(ctx) -> None:
-    pres = list(drv.PRE_CHOICES) if ctx.thorough else [None, 0x32, 0x25, drv.PRE_BYTES[ctx.seed % 15]]
+    pres = list(drv.PRE_CHOICES) if ctx.thorough else [None, 0x32, 0x25, 0x37, drv.PRE_BYTES[ctx.seed % 15]]
     pairs = [(p, op) for p in pres for op in range(256) if not (p is None and op in drv.PRE_BYTES)]
     tail = bytes.fromhex("3404050607")
     res = pmap(_shard_shapes, [(s, tail) for s in chunks(pairs, nproc() * 4)])
